@@ -103,6 +103,11 @@ def make_classes(prog, d, state):
                     d.obs("Got", i, a[1], a[2], None if v is None else v.j())
                 elif k == "Fail":
                     d.obs("Failed", i)
+                    if a[1] == 8:
+                        # the component itself fails with a ComponentStartError (e.g. from a nested start_component)
+                        exc = ComponentStartError("creating", "imaginary.path", Component)
+                        state["inner"] = exc
+                        raise exc
                     raise Boom(a[1])
                 elif k == "AddTd":
                     add_teardown_callback(lambda cb=a[1]: d.obs("Td", cb))
@@ -159,6 +164,7 @@ async def run_case(case):
             result["outcome"] = {"k": "error", "phase": e.phase, "comp": paths.get(e.path, -1),
                                  "class_ok": e.component_type is classes[paths.get(e.path, 0)],
                                  "cause": ["exc", cause.args[0]] if isinstance(cause, Boom) else
+                                 ["exc", 8] if cause is not None and cause is state.get("inner") else
                                  ["conflict"] if type(cause).__name__ == "ResourceConflict" else ["other", type(cause).__name__]}
             d.obs("Raised")
         except TimeoutError:
@@ -207,6 +213,7 @@ async def run_case(case):
                 d.drain()
         td = [o for o in d.drain() if o[0] == "Td"]
     return {"backend": case["backend"], "prog": prog, "timeout": case["timeout"], "choices": case["choices"],
+            "mode": case.get("mode"),
             "steps": steps, "outcome": result.get("outcome"), "finished": finished, "late": late,
             "still_waiting": still_waiting, "table": table, "teardown": [o[1] for o in td]}
 
